@@ -44,6 +44,23 @@ CLAIMED = {
             "Trusts TLC, the JDK SHA-256 behind the Native override (self-tested against vectors on every run), and the "
             "parametricity argument that long division on digit arrays is radix-independent.",
             "DESIGN.md 5/C07"),
+    "C09": ("TLA+ spec Bip32.tla over Ecdsa/EC/Num/Base58: TLC exhaustive on small curves with a toy HMAC (MC_Bip32 case model, MC_Bip32Path path "
+            "machine), TLC-generated derivation scenarios at secp256k1 size replayed into derive_from_path/get_xpub (Gen_Bip32), recorded calls "
+            "validated by TLC recomputing every extended key from the seed with real HMAC-SHA512 (Trace_Bip32)",
+            "Exhaustive model check, on curves with 31..97 points and I_L ranging over 0..n+3 so that 'I_L >= n' and 'child key 0 / child point "
+            "infinity' are ordinary states (census-checked, plus a deviation config TLC must refute), of N(CKDpriv) = CKDpub(N) whenever either "
+            "side is defined, hardened-from-public = error, path derivation = fold of steps = composition of prefixes, public/private "
+            "commutation from every neuter point, depth/fingerprint/child-number bookkeeping, DeserXKey(SerXKey(x)) = x and the rejection "
+            "table over all field classes. At secp256k1 size TLC enumerates all index-class shapes (quick <=1, thorough <=2 components) plus stepping shapes "
+            "to depth 8 with expected xprv/xpub strings replayed into the code, and judges recorded step-wise / whole-path / M-path derivations, "
+            "CKDpriv/CKDpub/N, get_xpub, serialisation round trips and ~50 mutation classes per key (every field, length, checksum, characters) "
+            "for seeds of 16..64 bytes over the boundary child numbers on both networks; the published BIP32 vectors (4 chains, 16 invalid keys) "
+            "pass through the same validator on every run.",
+            "Trusts TLC and the JDK HMAC-SHA512/SHA-256/RIPEMD-160/BigInteger behind Native (self-tested). Small-curve stage A proves identities "
+            "of the SPECIFICATION only: bip32.py asserts on the 32-byte I_L of secp256k1, so the code is bound at full size, where the invalid-"
+            "child branches are unreachable (2^-127) and paths/seeds are sampled (boundary sets first, then seeded random), not exhaustive. "
+            "A hardened child number written as a plain decimal >= 2^31 may be refused; serialised keys are passed as bytes.",
+            "DESIGN.md 5/C09"),
     "C10": ("TLA+ spec Bip39.tla (generic in group width / checksum unit / hash): TLC exhaustive on a scaled instance (MC_Bip39), "
             "TLC-enumerated boundary families at the real parameters replayed into bits.bips.bip39 (Gen_Bip39), implementation traces "
             "validated by TLC with real SHA-256 / PBKDF2-HMAC-SHA512 / NFKD (Trace_Bip39)",
